@@ -24,6 +24,7 @@
  *   i|p <tid> <cls>   m|q <tid> <cls> <k>     instance | implements | method_at_offset | implements_method_at_offset on an object of type tid
  *   J <tid> <cls>                      instance(<the type object tid itself>, cls): a lookup in Type's record through type_of
  *   K <tid> <tid2>                     cast(object of type tid, type tid2)
+ *   k <tid> <tid2>                     cast(<the type object tid itself>, type tid2): type_of of a type object is Type
  *   E null|dead|bad|nontype <tid> <cls>    lookups with a NULL / freed / foreign / non-type `self`
  *   E nullcls <tid> <cls>              type_instance(T, NULL) / type_implements(T, NULL) (the class token is ignored); executed only when
  *                                      the record has an un-memoised triple or no triple at all (otherwise the code reads through NULL: `ub`)
@@ -46,6 +47,9 @@
 #include "common.h"
 #include <dlfcn.h>
 #include <pthread.h>
+#include <sys/wait.h>
+#include <fcntl.h>
+#include <unistd.h>
 
 /* own layout constants: deliberately NOT Type.c's CELLO_NBUILTINS */
 enum { RAW_CACHE_WORDS = CELLO_CACHE_NUM, RAW_NAME_ENTRY = CELLO_CACHE_NUM / 3, RAW_FIRST = CELLO_CACHE_NUM / 3 + 2 };
@@ -561,7 +565,7 @@ int main(int argc, char** argv) {
       else V_TRY(exc, del_raw(T));
       if (exc) X("sig=disp-del line=%zu what=deleting the run-time type raised %s", line, v_exc_name(exc));
       h->kind = 0; mark_dead(T);
-      free(h->cells); free_type(h);
+      park((char*)h->cells); free_type(h);      /* the instance objects outlive the type: a remembered instance pointer must not dangle */
       O("X %d %s", tid, v_exc_name(exc));
     } break;
     case 'Y': {
@@ -610,7 +614,8 @@ int main(int argc, char** argv) {
       if (needk && er >= 0 && (size_t)k >= strlen(h->rflags[er])) { O("bad-op"); break; }   /* a read outside the instance struct: never executed */
       /* KF-C08-class-memo-stale: a triple memoises the ADDRESS of this class object but does not carry its current name */
       int stale = 0;
-      for (struct Type* t = raw_first(T); t->name; t++) if (t->cls == cls && strcmp((const char*)t->name, raw_name(cls)) != 0) stale = 1;
+      if (is_changed(cls))        /* only a class object whose name was REWRITTEN since (renamed in place, or a new object on a deleted one's address) */
+        for (struct Type* t = raw_first(T); t->name; t++) if (t->cls == cls && strcmp((const char*)t->name, raw_name(cls)) != 0) stale = 1;
 #define SIG(s) (stale ? "KF-C08-class-memo-stale" : (s))
       long inv0 = invoked;
       if (op[0] == 'I' || op[0] == 'i') {
@@ -668,6 +673,23 @@ int main(int argc, char** argv) {
       O("K %s%s", res, dump(h, 1));
       check_inv(h, line); nlook++;
     } break;
+    case 'k': {
+      /* the type object itself is cast: its type is Type (tid 0 must be bound to Type), so only `cast(T, Type)` succeeds */
+      if (nt != 3) { O("bad-op"); break; }
+      int tid = atoi(tok[1]), tid2 = atoi(tok[2]);
+      if (tid < 0 || tid >= MAXT || !th[tid].kind || tid2 < 0 || tid2 >= MAXT || !th[tid2].kind) { O("bad-op"); break; }
+      if (!th[0].kind || th[0].type != Type) { O("bad-op"); break; }
+      TH* h = &th[tid]; var T = h->type; var got = NULL; long inv0 = invoked;
+      V_TRY(exc, got = cast(T, th[tid2].type));
+      const char* res = exc ? v_exc_name(exc) : (got == T ? "self" : "other");
+      if (invoked != inv0) X("sig=disp-invoked line=%zu what=cast of a type object called a member", line);
+      if (th[tid2].type == Type) { if (exc || got != T) X("sig=disp-cast line=%zu what=cast(%s, Type) gave %s", line, raw_name(T), res); }
+      else if (exc == FormatError && th[tid2].type == Terminal) X("sig=KF-C08-terminal-message line=%zu what=cast of the type object %s to Terminal raised FormatError instead of ValueError: Terminal among the message arguments ends the argument tuple", line, raw_name(T));
+      else if (exc != ValueError) X("sig=disp-cast line=%zu what=cast of the type object %s (whose type is Type) to %s gave %s instead of ValueError", line, raw_name(T), raw_name(th[tid2].type), res);
+      if (!raw_hdr(T)) X("sig=disp-typeof line=%zu what=type_of left the header type word of a type object NULL", line);
+      O("k %s%s", res, dump(h, 1));
+      check_inv(h, line); check_inv(&th[0], line); nlook++;
+    } break;
     case 'E': {
       if (nt != 4) { O("bad-op"); break; }
       int tid = atoi(tok[2]); if (tid < 0 || tid >= MAXT || !th[tid].kind) { O("bad-op"); break; }
@@ -678,6 +700,12 @@ int main(int argc, char** argv) {
         var T = h->type; int cold = 0, nn = raw_count(T);
         for (struct Type* t = raw_first(T); t->name; t++) if (!t->cls) cold = 1;
         if (!cold && nn > 0) { O("E nullcls ub ub%s", dump(h, 1)); break; }          /* would read through NULL: never executed */
+        /* misuse that borders on undefined behaviour: tried in a forked child first; only a call that survives there is made here */
+        fflush(stdout); fflush(stderr);
+        pid_t pid = fork();
+        if (pid == 0) { alarm(10); int fd = open("/dev/null", O_WRONLY); if (fd >= 0) { dup2(fd, 1); dup2(fd, 2); } volatile var g = type_instance(T, NULL); (void)g; _exit(0); }
+        int wst = 0; if (pid > 0) waitpid(pid, &wst, 0);
+        if (pid <= 0 || !WIFEXITED(wst) || WEXITSTATUS(wst) != 0) { O("E nullcls crash crash%s", dump(h, 1)); break; }
         var got = NULL; bool b = false; var e2 = NULL;
         V_TRY(exc, got = type_instance(T, NULL)); V_TRY(e2, b = type_implements(T, NULL));
         fmt_res(rb, sizeof rb, T, exc, got);
